@@ -8,8 +8,8 @@
 (* device with a capacity, optionally already allocated in the cluster to  *)
 (* claims that stay (no pod consumers / a non-pod consumer) or that migrate *)
 (* with a pod being rescheduled in this pass (the seed of allocated devices *)
-(* = gatherAllocatedDevices; W_Releasable = FALSE is the rule the code has  *)
-(* today and is rejected: known finding F-C17-1..3);                        *)
+(* = gatherAllocatedDevices as it is since /repo 576ecc993; W_Releasable =  *)
+(* FALSE is the rule before that fix - findings F-C17-1..3 - and rejected); *)
 (* per-instance-type templates (type A: one exclusive device, type B: two,  *)
 (* each plus a shared template device); NodeClaims superposed over types    *)
 (* {A, B}; claims of seven kinds (one / two exclusive in-cluster devices, a *)
@@ -46,8 +46,9 @@ CONSTANTS
     W_CapDelta,   \* TRUE: Commit folds the NEW pessimistic maximum into the in-flight capacity (FALSE: only the first commitment of a NodeClaim counts)
     W_Counters,   \* TRUE: the pool counter is checked
     W_Template,   \* TRUE: a template device allocated for (NodeClaim, type) is taken for that pair
-    W_Releasable  \* TRUE: a device leaves the seed of allocated devices only if EVERY claim holding it migrates (FALSE = the rule the code
-                  \*       has today, known finding F-C17-1: "every POD consumer is leaving", whatever else holds the device)
+    W_Releasable  \* TRUE: a device leaves the seed of allocated devices only if EVERY claim holding it migrates - the rule of
+                  \*       gatherAllocatedDevices since /repo 576ecc993 (FALSE = the rule before that fix, findings F-C17-1..3:
+                  \*       "every POD consumer is leaving", whatever else holds the device; kept as a Weak config TLC must reject)
 
 VARIABLES dra, surv, meta, inflight, tmpl, capBy, capIn, ctrBy, ctrLeft, tcapBy
 vars == <<dra, surv, meta, inflight, tmpl, capBy, capIn, ctrBy, ctrLeft, tcapBy>>
